@@ -1053,6 +1053,89 @@ def work_session(job, acc):
     acc.run.sample(dict(part='session', mode=mode, first=first, depth=depth))
 
 
+# ------------------------------------------------------ part nsession ----
+# Histories of authenticate / protect on ONE NTAG21x tag object.  The truth
+# for every step is the tag model at that moment: the key latched at the last
+# selection (what PWD_AUTH is compared with) and whether the tag still answers
+# (a refused PWD_AUTH leaves a real tag silent until it is selected again).
+NS_PASS = ('A', 'Ak0', 'Ap0')      # tag key, same PWD other PACK, other PWD
+
+
+def jobs_nsession(tier):
+    depth = 4 if tier == 'thorough' else 3
+    for product in (('210', '213', '216') if tier == 'thorough'
+                    else ('213',)):
+        for start in ('A', 'factory'):
+            for first in [(op, pw) for op in ('auth', 'protect')
+                          for pw in NS_PASS]:
+                yield dict(part='nsession', product=product, start=start,
+                           first=list(first), depth=depth)
+
+
+def nsession_run(product, start, hist):
+    key0 = dkeys(N_KEYS)[start]
+    model = nt.Ntag21x(product, pwd=key0[0:4], pack=key0[4:6],
+                       ndef=b'\xd1\x01\x03T\x02en')
+    clf, tag = n_activate(model)
+    clf.arm()
+    trace = []
+    for k, (op, pw) in enumerate(hist):
+        poct = dkeys(N_PASS)[pw]
+        answering = model.state != 'IDLE'
+        latched = bytes(model.l_pwd + model.l_pack)
+        writable = model.state == 'AUTHENTICATED' or \
+            model.l_auth0 > model.cfg + 3
+        o = call(getattr(tag, 'authenticate' if op == 'auth' else 'protect'),
+                 bytes(poct))
+        trace.append((op, pw, show(o), model.state))
+        bad = None
+        if o[0] == 'exc':
+            # a tag that does not answer (or refuses the write) may end the
+            # call with a TagCommandError; nothing else is documented
+            if not (is_tag_error(o[1]) and (
+                    not answering or (op == 'protect' and not writable))):
+                bad = sig_exc(o[1])
+        elif op == 'auth':
+            if o[1] is True and not (
+                    model.state == 'AUTHENTICATED' and
+                    bytes(model.l_pwd + model.l_pack) == n_key(poct)):
+                bad = 'True-but-tag-does-not-hold-the-key'
+            elif answering and o[1] is not (latched == n_key(poct)):
+                bad = 'returned-%r-expected-%r' % (o[1], latched == n_key(
+                    poct))
+        else:
+            if o[1] is True and model.key() != n_key(poct):
+                bad = 'True-but-tag-holds-other-key'
+            elif answering and writable and o[1] is not True:
+                # every command of protect() is answered and allowed
+                bad = 'returned-%r-on-writable-tag' % (o[1],)
+        if bad:
+            prev = '%s(%s)' % tuple(hist[k - 1]) if k else 'start'
+            return [('NTAG21x|nsession|%s(%s) after %s|%s' % (op, pw, prev,
+                                                              bad),
+                     dict(part='nsession', product=product, start=start,
+                          history=[list(h) for h in hist], step=k,
+                          tag_answering=answering, latched_key=latched.hex(),
+                          observed=show(o), trace=trace[:]))]
+    return []
+
+
+def work_nsession(job, acc):
+    product, start, depth = job['product'], job['start'], job['depth']
+    ops = [(op, pw) for op in ('auth', 'protect') for pw in NS_PASS]
+    for n in range(0, depth):
+        for rest in itertools.product(ops, repeat=n):
+            hist = (tuple(job['first']),) + rest
+            k = ('nsession', product, start, hist)
+            bad = nsession_run(product, start, hist)
+            for sig, d in bad:
+                acc.fail(sig, d, k)
+            if not bad:
+                acc.ok(k, outcome=('nsession', hist[-1]))
+    acc.run.sample(dict(part='nsession', product=product, start=start,
+                        first=job['first'], depth=depth))
+
+
 # --------------------------------------------------------- part strpw ----
 # Text passwords with characters above U+007F: "protect(password) followed by
 # authenticate with the same password succeeds while any other password
@@ -1128,12 +1211,13 @@ def work_strpw(job, acc):
 
 PARTS = dict(auth=(jobs_auth, work_auth), protect=(jobs_protect, work_protect),
              session=(jobs_session, work_session),
+             nsession=(jobs_nsession, work_nsession),
              strpw=(jobs_strpw, work_strpw),
              read=(jobs_read, work_read), conv=(jobs_conv, work_conv),
              ndef=(jobs_ndef, work_ndef), ntag=(jobs_ntag, work_ntag),
              pairs=(jobs_pairs, work_pairs))
 ORDER = ('read', 'pairs', 'ndef', 'conv', 'protect', 'session', 'auth',
-         'ntag', 'strpw')
+         'ntag', 'nsession', 'strpw')
 
 
 def work(chunk):
